@@ -68,7 +68,7 @@ CHECKS["C14"] = dict(
 
 CHECKS["C06"] = dict(
     technique="runtime monitoring: real-process exit-status monitor with a scenario classifier as oracle",
-    text="The shipped binary is run as real processes on scenarios built from finite classes (1..3 rules files from 8 kinds (incl. rules whose `when` guard decides by data) x 1..3 data "
+    text="The shipped binary is run as real processes on scenarios built from finite classes (1..3 rules files from 9 kinds (incl. rules whose `when` guard decides by data and files that are not UTF-8) x 1..3 data "
          "files from 6 kinds (incl. documents no rule applies to; every single-rules-file combination always runs), every position, x 12 invocation modes incl. payload, stdin, directories, explicit files mixed with directories in one option list (both orders), structured json/yaml/junit/sarif; "
          "`test` scenarios x 4 formats x 4 layouts - files, directory, directory with 2-3 rules files and the scenario file at each position, --test-data directory with the scenario file in a sub-directory); the exit status must fall in the class a 30-line classifier derives from what the "
          "generator built (per-pair verdicts confirmed by singleton library runs); in-process results must agree with process exits; "
